@@ -310,7 +310,7 @@ func propHistory(t *rapid.T) {
 		"copy": func(t *rapid.T) {
 			cp, ok := copyTrie(c.tr)
 			if !ok {
-				t.Skip("handle cannot be copied")
+				return // not a skip: under the byte-driven fuzz entry an exhausted input keeps choosing the same action
 			}
 			frozenContent := map[string][]byte{}
 			for k, v := range c.content {
@@ -332,7 +332,7 @@ func propHistory(t *rapid.T) {
 		},
 		"checkCopy": func(t *rapid.T) {
 			if c.frozen == nil {
-				t.Skip("no copy")
+				return // nothing to check yet (not a skip, see "copy")
 			}
 			c.log("checkCopy", "")
 			checkFrozen()
